@@ -265,6 +265,22 @@ def inline_new_helpers(mod, pinned):
                 changed = True
                 count += 1
                 break
+            # (3b) the same helper shape called inside a larger expression of an assignment / return / expression statement:
+            # its statements can be hoisted in front of the statement when no other call is evaluated before it
+            if len(rets) == 1 and body and body[-1] is rets[0] and rets[0].value is not None and isinstance(st, (ast.Assign, ast.Return, ast.Expr)) \
+                    and st.value is not None and _contains(st.value, call) and not _contains_any(body[:-1], (ast.Return,)):
+                anc = set(id(a) for a in _ancestors(call))
+                others = [c for c in ast.walk(st.value) if isinstance(c, ast.Call) and c is not call and id(c) not in anc and not _contains(call, c)]
+                lazy = any(isinstance(a, (ast.IfExp, ast.BoolOp, ast.Lambda, ast.ListComp, ast.SetComp, ast.DictComp, ast.GeneratorExp)) for a in _ancestors(call) if _contains(st.value, a))
+                if not others and not lazy:
+                    pre = [_Subst(binding).visit(s) for s in _clone_stmts(body[:-1])]
+                    val = _Subst(binding).visit(ast.Expression(body=_clone(rets[0].value))).body
+                    _replace_expr(call, val)
+                    _place(pre + [val], st)
+                    lst[i:i] = pre
+                    changed = True
+                    count += 1
+                    break
             # (4) 'return helper(...)': the helper's returns are the host's returns, whatever its shape
             if isinstance(st, ast.Return) and st.value is call and not any(isinstance(x, (ast.Yield, ast.YieldFrom)) for x in _own_stmt_nodes(helper)):
                 from .model import terminates
@@ -500,6 +516,10 @@ def _call_tail(c):
     from .model import dotted
     n = dotted(c.func) or (c.func.attr if isinstance(c.func, ast.Attribute) else "")
     return n.split(".")[-1]
+
+
+def _contains_any(stmts, kinds):
+    return any(isinstance(x, kinds) for s_ in stmts for x in ast.walk(s_))
 
 
 def _contains(root, sub):
